@@ -52,6 +52,7 @@ package runtime
 
 //@ func nextslicecap
 //@ params newLen oldCap
+//@ locals newcap doublecap threshold
 //@ props C05
 //@ requires 0 <= oldCap && oldCap < newLen && newLen < 1<<61
 //@ ensures C05 ge: result >= newLen && result > 0
@@ -140,6 +141,7 @@ package runtime
 
 //@ func StringEqual
 //@ params x y
+//@ locals i
 //@ props C05
 //@ requires x.len >= 0 && y.len >= 0 && valid(x.data, x.len) && valid(y.data, y.len)
 //@ ensures C05 eq: result <==> (x.len == y.len && forall k int :: 0 <= k && k < x.len ==> x[k] == y[k])
@@ -149,6 +151,7 @@ package runtime
 
 //@ func StringLess
 //@ params x y
+//@ locals n i ix iy
 //@ props C05
 //@ requires x.len >= 0 && y.len >= 0 && valid(x.data, x.len) && valid(y.data, y.len)
 //@ ensures C05 lex: result <==> ((exists j int :: 0 <= j && j < min(x.len, y.len) && x[j] < y[j] && forall k int :: 0 <= k && k < j ==> x[k] == y[k]) || (x.len < y.len && forall k int :: 0 <= k && k < x.len ==> x[k] == y[k]))
@@ -256,6 +259,7 @@ package runtime
 
 //@ func ChanSend
 //@ params p v eltSize
+//@ locals n off
 //@ props C10 C03
 //@ arith int
 //@ opt panic_writes allowed
@@ -304,6 +308,7 @@ package runtime
 
 //@ func ChanRecv
 //@ params p v eltSize
+//@ locals n
 //@ props C10
 //@ arith int
 //@ lock Chan.mutex protects p.getp, p.len, p.close, p.sends, p.selsends, p.sops, p.data, bytes(chanbuf(p), p.cap*eltSize)
@@ -320,6 +325,7 @@ package runtime
 
 //@ func chanTryRecv
 //@ params p v eltSize acceptSelectSend
+//@ locals n
 //@ props C10
 //@ arith int
 //@ lock Chan.mutex protects p.getp, p.len, p.close, p.sends, p.selsends, p.sops, p.data, bytes(chanbuf(p), p.cap*eltSize)
@@ -535,6 +541,7 @@ package runtime
 
 //@ func Implements
 //@ params T V
+//@ locals t v i j tm vm v i vmethods j tm vm
 //@ props C07
 //@ arith int
 //@ requires T != nil && nmeth(T) >= 0 && nmeth(T) < 1<<30 && valid(itype(T).Methods.data, nmeth(T)*24)
@@ -575,6 +582,7 @@ package runtime
 
 //@ func findMethod
 //@ params mthds im
+//@ locals imName m mName
 //@ props C07
 //@ arith int
 //@ requires len(mthds) < 1<<30 && valid(mthds.data, len(mthds)*40) && fcoupled(mthds) && fsorted(mthds)
@@ -750,6 +758,7 @@ package runtime
 
 //@ func StringFromRunes
 //@ params rs
+//@ locals data index r n
 //@ props C05
 //@ requires sane: len(rs) >= 0 && len(rs) <= 1<<40 && cap(rs) >= len(rs) && (len(rs) > 0 ==> valid(rs.data, len(rs)*4))
 //@ loop 1 invariant progress: -1 <= rangeindex && rangeindex < len(rs) && rangeindex + 1 <= index && index <= 4*(rangeindex+1)
@@ -761,6 +770,7 @@ package runtime
 
 //@ func StringToRunes
 //@ params s
+//@ locals data index i c
 //@ props C05
 //@ requires sane: len(s) >= 0 && len(s) <= 1<<40 && (len(s) > 0 ==> valid(s.data, len(s)))
 //@ loop 1 invariant progress: 0 <= i && i <= len(s) && index <= uint(i) && (i > 0 ==> index >= 1)
